@@ -156,3 +156,41 @@ func (self Compiler) codeLen() int { return len(self.CurrFn().Instructions) }
     ensures @not op == ast.NegatePrefixOperator ==> self.codeLen() == old(self.codeLen())+1 && self.emitted(0).Opcode() == Opcode_Not && self.emittedSpan(0) == span
     ensures @some op == ast.IntoSomePrefixOperator ==> self.codeLen() == old(self.codeLen())+1 && self.emitted(0).Opcode() == Opcode_Some && self.emittedSpan(0) == span
 @*/
+
+// ---------------------------------------------------------------------------
+// Name resolution across modules (C14, C15): a function name denotes the
+// current module's own function or, failing that, the function of that name
+// in a module the current module imports it from - never a function found by
+// searching all modules (whose iteration order is random and which would make
+// private functions of unrelated modules visible).
+
+// importsFn: the i-th import statement of the current module imports the
+// function `name` (as its j-th item) from a Homescript module that defines it.
+func (self Compiler) importsFn(i int, j int, name string) bool {
+	imports := self.analyzedSource[self.currModule].Imports
+	if i < 0 || i >= len(imports) || j < 0 || j >= len(imports[i].ToImport) {
+		return false
+	}
+	if !imports[i].TargetIsHMS || imports[i].ToImport[j].Ident.Ident() != name {
+		return false
+	}
+	m, ok := self.modules[imports[i].FromModule.Ident()]
+	if !ok || m == nil {
+		return false
+	}
+	f, ok := m[name]
+	return ok && f != nil
+}
+
+func (self Compiler) importedName(i int, name string) string {
+	return self.modules[self.analyzedSource[self.currModule].Imports[i].FromModule.Ident()][name].MangledName
+}
+
+/*@ assume-invariant map[string]*compiler.Function elems-nonnil @*/
+
+/*@ func (self Compiler) getMangledFn
+    serves C14, C15
+    assume-safety
+    ensures @own-function-first haskey(self.modules[self.currModule], input) ==> ret1 && ret0 == self.modules[self.currModule][input].MangledName
+    ensures @only-own-or-imported ret1 && !haskey(self.modules[self.currModule], input) ==> exists i in 0..len(self.analyzedSource[self.currModule].Imports) :: exists j in 0..len(self.analyzedSource[self.currModule].Imports[i].ToImport) :: self.importsFn(i, j, input) && ret0 == self.importedName(i, input)
+@*/
